@@ -1077,4 +1077,35 @@ example : (match parseUntrusted C04.H1 b!"10" (C04.exEv "\"event_id\":\"$x\"," "
     | _, _ => false)
   | _ => false) = true := by decide +kernel
 
+/-- **`Build` refuses what the untrusted constructors refuse** (defect P5 of the second audit round): when the members
+    `Build` has assembled — the proto-event's raw `content` / `unsigned` included — repeat a member name at any depth,
+    `Build` returns `BadJSONError` instead of an event (`checkUntrustedEventJSON` on its own output).  Together with
+    `build_ok` (an event `Build` returns has no repeated name) this is why `build_roundtrip` needs no hypothesis about
+    duplicate names: before the fix the code returned such events and `NewEventFromUntrustedJSON` refused them. -/
+theorem build_refuses_duplicate_members (H : Bytes → Bytes) (row : VGen.VersionRow) (ver : Bytes) (signed : EventParse.Obj)
+    (henf : enforcedOkVal row (.obj signed) = some true) (hd : (JVal.obj signed).noDupKeys = false) :
+    EventBuild.finishBuild H row ver signed = .error .badJSON := by
+  unfold EventBuild.finishBuild
+  simp [henf, hd]
+
+/-- … and the untrusted constructor refuses the same texts: a text whose value repeats a member name is never accepted -/
+theorem untrusted_refuses_duplicate_members (H : Bytes → Bytes) (ver t : Bytes) (p : PVal) (hp : parse t = some p)
+    (hd : p.toJVal.noDupKeys = false) : ∀ e, parseUntrusted H ver t ≠ .ok e := by
+  intro e h
+  unfold parseUntrusted at h
+  split at h
+  · cases h
+  · split at h
+    · rw [hp] at h
+      simp only at h
+      split at h
+      · cases h
+      · split at h
+        · cases h
+        · split at h
+          · cases h
+          · rename_i hnd
+            simp [hd] at hnd
+    · cases h
+
 end V.C03
